@@ -6,7 +6,7 @@ import decl, gen, pktcases
 
 
 def make_groups(rng, ngroups, features=None, values_per_class=2, offsets=(), maxcuts=12, flips=2, record=False,
-                defaults=True, tag_base=0, nclasses=(2, 3, 4), extra=None):
+                defaults=True, tag_base=0, nclasses=(2, 3, 4), extra=None, cut_with_prefix=False):
     groups = []
     for gid in range(ngroups):
         feats = features(gid) if callable(features) else dict(features or {})
@@ -18,7 +18,8 @@ def make_groups(rng, ngroups, features=None, values_per_class=2, offsets=(), max
             for _ in range(values_per_class):
                 v = vg.try_value(c)
                 if v is not None:
-                    G.add_derive(c, v, seed=rng.randrange(10 ** 6), offsets=offsets, maxcuts=maxcuts, flips=flips, record=record)
+                    G.add_derive(c, v, seed=rng.randrange(10 ** 6), offsets=offsets, maxcuts=maxcuts, flips=flips, record=record,
+                                 cut_with_prefix=cut_with_prefix)
             if defaults:
                 G.add_default(c, {})
             if extra:
